@@ -574,6 +574,54 @@ pub fn history(bytes: &[u8]) -> (Vec<Snippet>, Vec<&'static str>) {
                 labels.push("import_failing_module");
                 failed_before = failed_before || !guarded;
             }
+            18 => {
+                // the value that ends an iteration is an ordinary instance, new each time: what one
+                // snippet writes on the one it got is not on the one a later snippet gets (also after
+                // a failed snippet or a reset in between), and two of them are different objects
+                let (ia, ib) = (g.fresh_pub("it"), g.fresh_pub("it"));
+                let (sa, sb) = (g.fresh_pub("fin"), g.fresh_pub("fin"));
+                let first = vec![
+                    Stmt::var(&ia, Some(Expr::invoke(Expr::VecLit(vec![Expr::Num(1.0)]), "iter", vec![]))),
+                    Stmt::expr(Expr::invoke(Expr::var(&ia), "next", vec![])),
+                    Stmt::var(&sa, Some(Expr::invoke(Expr::var(&ia), "next", vec![]))),
+                    Stmt::print(Expr::callv("type", vec![Expr::var(&sa)])),
+                    Stmt::expr(Expr::assign(Target::Prop(Expr::var(&sa), "note".into()), Expr::str("left by an earlier snippet"))),
+                    Stmt::print(Expr::get(Expr::var(&sa), "note")),
+                ];
+                v.push(Snippet::Code(first, "code"));
+                let reset_between = match g.rd.below(3) {
+                    0 => false,
+                    1 => {
+                        v.push(Snippet::Code(vec![Stmt::new(StmtKind::Throw(Expr::str("fails between")))], "code"));
+                        failed_before = true;
+                        false
+                    }
+                    _ => {
+                        v.push(Snippet::Reset);
+                        labels.push("reset");
+                        g.forget_globals();
+                        true
+                    }
+                };
+                let src: Expr = if g.rd.flag() { Expr::VecLit(vec![Expr::Num(2.0)]) } else { Expr::range(Expr::Num(0.0), Expr::Num(1.0)) };
+                let mut second = vec![
+                    Stmt::var(&ib, Some(Expr::invoke(src, "iter", vec![]))),
+                    Stmt::expr(Expr::invoke(Expr::var(&ib), "next", vec![])),
+                    Stmt::var(&sb, Some(Expr::invoke(Expr::var(&ib), "next", vec![]))),
+                    Stmt::print(Expr::callv("type", vec![Expr::var(&sb)])),
+                    Stmt::new(StmtKind::Try(
+                        vec![Stmt::print(Expr::get(Expr::var(&sb), "note"))],
+                        Some(("en".into(), vec![Stmt::print(Expr::callv("type", vec![Expr::var("en")]))])),
+                        None,
+                    )),
+                ];
+                if !reset_between {
+                    second.push(Stmt::print(Expr::bin(BinOp::Eq, Expr::var(&sa), Expr::var(&sb))));
+                    second.push(Stmt::print(Expr::get(Expr::var(&sa), "note")));
+                }
+                v.push(Snippet::Code(second, "iteration_end_value_probe"));
+                labels.push("iteration_end_value_probe");
+            }
             17 => {
                 // a global of main named like a built-in (a variable or a function), defined in one
                 // snippet and read in a later one: a definition persists, whatever its name
@@ -690,7 +738,7 @@ impl Property for C15 {
     }
 
     fn rule(&self) -> String {
-        "cases: histories of 2-12 snippets fed to one interpreter through vm::interpret (as the REPL does): generated code that defines and uses globals, functions and classes across snippets; snippets that do not compile; snippets that complete some definitions and then end in an uncaught error (top-level throw, throw from nested calls, inside a fiber, inside try/finally, during a class definition, in a constructor, a missing import, a built-in error); imports of two modules (one importing the other) that must persist; imports of a module that is missing and of one that does not compile, guarded and unguarded, followed — as a host action between snippets — by the loader starting to serve a good text, after which the same import must load it (once) and later imports find it loaded; the host then replacing that text by a second edition, which a loaded module ignores and an interpreter that was reset loads like a new one; probes with try/finally, try/catch/finally and a fiber; and reset(). Oracle: the reference interpreter fed the same history piecewise (a brand-new reference interpreter after reset), compared per snippet: printed values, outcome, error kind, report and trace; a panic in any snippet is a violation. Non-trivial: a failing snippet is followed by a probe or by code using earlier definitions; distinct by the rendered history.".into()
+        "cases: histories of 2-12 snippets fed to one interpreter through vm::interpret (as the REPL does): generated code that defines and uses globals, functions and classes across snippets; snippets that do not compile; snippets that complete some definitions and then end in an uncaught error (top-level throw, throw from nested calls, inside a fiber, inside try/finally, during a class definition, in a constructor, a missing import, a built-in error); imports of two modules (one importing the other) that must persist; imports of a module that is missing and of one that does not compile, guarded and unguarded, followed — as a host action between snippets — by the loader starting to serve a good text, after which the same import must load it (once) and later imports find it loaded; the host then replacing that text by a second edition, which a loaded module ignores and an interpreter that was reset loads like a new one; probes with try/finally, try/catch/finally and a fiber; the value that ends an iteration written to in one snippet and obtained again in a later one (after nothing, a failed snippet or a reset); and reset(). Oracle: the reference interpreter fed the same history piecewise (a brand-new reference interpreter after reset), compared per snippet: printed values, outcome, error kind, report and trace; a panic in any snippet is a violation. Non-trivial: a failing snippet is followed by a probe or by code using earlier definitions; distinct by the rendered history.".into()
     }
 
     fn assumptions(&self) -> Vec<String> {
@@ -865,7 +913,7 @@ impl Property for C15 {
             ("snippets", 30_000),
             ("gen:compile_error", 2_000),
             ("gen:reset", 1_000),
-            ("gen:throw_in_fiber", 300), ("gen:probe_waiting_fiber", 500), ("gen:redefined_builtin_probe", 1_000), ("gen:import_new_edition_after_reset", 300),
+            ("gen:throw_in_fiber", 300), ("gen:probe_waiting_fiber", 500), ("gen:redefined_builtin_probe", 1_000), ("gen:import_new_edition_after_reset", 300), ("gen:iteration_end_value_probe", 1_000),
             ("gen:throw_in_try_finally", 300),
             ("gen:probe_after_failure", 1_000),
             ("gen:import", 2_000), ("gen:import_late", 2_000), ("gen:import_failing_module", 1_500), ("gen:provide_module", 1_000),
